@@ -7,6 +7,10 @@
     pat.fmt <type> <patternHex> <culture> <value fields…>  → textHex | !dom | !<err>
     pat.parse <type> <patternHex> <culture> <textHex>       → ok fields… | fail | !dom | !<err>
     pat.delim <type> <patternHex> <culture> → 1 | 0 (the theorem's `Delimited` criterion on the compiled steps) | - (not stepped)
+    pat.wf <type> <patternHex> <culture> → 1 | 0 (`dtStepWF` on all steps and `fieldsSound`) | - (not stepped)
+    cu.check <culture> → <offsetTextsCustom> <dtTextsNoL> <monthHeadsEmpty>   (culture hypotheses of the theorems)
+    pat.calids → hex of the U+001F-joined calendar ids
+       type: time | date | offset | datetime | datetime:<y>,<m>,<d>,<nod> (template value)
        shape: S<used>/<number of steps>  |  Z(<shape>)  |  C(<shape>,<shape>,…)
     culture: `inv` or `c:` + hex of the U+001F-joined fields of `Culture` (lists comma-free: each list entry is
        its own field; 4+4+14*4+8*2+11 … see `decodeCulture`)
@@ -14,6 +18,7 @@
 import PyodaModel.Text.Compile
 import PyodaModel.Text.Buckets
 import PyodaModel.Text.Delimited
+import PyodaModel.Text.WellFormed
 
 namespace Pyoda.Text
 
@@ -30,24 +35,40 @@ def splitOnChar (sep : Char) : Text → Text → List Text → List Text
   | c :: l, cur, acc => if c = sep then splitOnChar sep l [] (cur.reverse :: acc) else splitOnChar sep l (c :: cur) acc
 
 /-- field order: timeSep dateSep am pm | 14 longMonths | 14 shortMonths | 14 longMonthsGen | 14 shortMonthsGen |
-    8 longDays | 8 shortDays | shortDate longDate monthDay shortTime longTime | 6 offset pattern texts  (87 fields) -/
+    8 longDays | 8 shortDays | shortDate longDate monthDay shortTime longTime | 6 offset pattern texts |
+    fullDateTime | primary BCE, CE era names | all BCE, CE era names (each list U+001E-joined)  (92 fields) -/
 def decodeCulture (s : String) : Option Culture :=
   if s = "inv" then some invariantCulture
   else if s.startsWith "c:" then do
     let t ← decodeText' (String.ofList (s.toList.drop 2))
     let fs := splitOnChar (Char.ofNat 31) t [] []
-    if fs.length ≠ 87 then none else
+    if fs.length ≠ 92 then none else
     let g (i : Nat) : Text := fs.getD i []
     let sl (a n : Nat) : List Text := (fs.drop a).take n
+    let names (i : Nat) : List Text := if g i = [] then [] else splitOnChar (Char.ofNat 30) (g i) [] []
     some { timeSep := g 0, dateSep := g 1, am := g 2, pm := g 3,
            longMonths := sl 4 14, shortMonths := sl 18 14, longMonthsGen := sl 32 14, shortMonthsGen := sl 46 14,
            longDays := sl 60 8, shortDays := sl 68 8,
            shortDate := g 76, longDate := g 77, monthDay := g 78, shortTime := g 79, longTime := g 80,
-           offLong := g 81, offMedium := g 82, offShort := g 83, offLongNP := g 84, offMediumNP := g 85, offShortNP := g 86 }
+           offLong := g 81, offMedium := g 82, offShort := g 83, offLongNP := g 84, offMediumNP := g 85, offShortNP := g 86,
+           fullDateTime := g 87, eraPrimaryBCE := g 88, eraPrimaryCE := g 89, eraNamesBCE := names 90, eraNamesCE := names 91 }
   else none
 
+/-- `time` | `date` | `offset` | `datetime` (default template) | `datetime:<y>,<m>,<d>,<nod>` -/
 def decodeType (s : String) : Option PType :=
-  if s = "time" then some .time else if s = "date" then some .date else if s = "offset" then some .offset else none
+  if s = "time" then some .time else if s = "date" then some .date else if s = "offset" then some .offset
+  else if s = "datetime" then some (.datetime Tmpl.default)
+  else if s.startsWith "datetime:" then
+    match ((String.ofList (s.toList.drop 9)).splitOn ",").mapM String.toInt? with
+    | some [y, m, d, nod] => some (.datetime ⟨y, m, d, nod⟩)
+    | _ => none
+  else none
+
+/-- the type a created pattern object parses with (LocalDateTime standard patterns keep the default template) -/
+def effType (ty : PType) (text : Text) : PType :=
+  match ty with
+  | .datetime tm => .datetime (effTmpl tm text)
+  | t => t
 
 mutual
 def showPat : Pat → String
@@ -64,6 +85,7 @@ def stepIsText : Step → Bool
   | .amPm _ => true
   | .monthText _ => true
   | .dayText _ => true
+  | .era => true
   | _ => false
 
 mutual
@@ -80,7 +102,8 @@ def asciiOnly (t : Text) : Bool := t.all (fun c => decide (c.toNat < 128))
 
 def cultureAscii (cu : Culture) : Bool :=
   asciiOnly cu.am && asciiOnly cu.pm &&
-  (cu.longMonths ++ cu.shortMonths ++ cu.longMonthsGen ++ cu.shortMonthsGen ++ cu.longDays ++ cu.shortDays).all asciiOnly
+  (cu.longMonths ++ cu.shortMonths ++ cu.longMonthsGen ++ cu.shortMonthsGen ++ cu.longDays ++ cu.shortDays ++
+    cu.eraNamesBCE ++ cu.eraNamesCE).all asciiOnly
 
 def handlePat (toks : List String) : Option String :=
   match toks with
@@ -123,7 +146,7 @@ def handlePat (toks : List String) : Option String :=
         | .error e => "!" ++ e.name
         | .ok pat =>
           if patHasText pat && !(asciiOnly t && cultureAscii cu) then "!dom"
-          else match parsePat ty t pat with
+          else match parsePat (effType ty p) t pat with
             | .error e => "!" ++ e.name
             | .ok none => "fail"
             | .ok (some v) => "ok " ++ showInts v)
@@ -133,6 +156,16 @@ def handlePat (toks : List String) : Option String :=
         | .error e => "!" ++ e.name
         | .ok (.stepped c) => if Delimited true c.steps then "1" else "0"
         | .ok _ => "-")
+  | ["pat.wf", ty, p, cu] => do
+      let ty ← decodeType ty; let p ← decodeText' p; let cu ← decodeCulture cu
+      some (match compile ty cu p with
+        | .error e => "!" ++ e.name
+        | .ok (.stepped c) => showBool (c.steps.all dtStepWF && fieldsSound c.used c.steps)
+        | .ok _ => "-")
+  | ["cu.check", cu] => do
+      let cu ← decodeCulture cu
+      some s!"{showBool cu.offsetTextsCustom} {showBool cu.dtTextsNoL} {showBool cu.monthHeadsEmpty}"
+  | ["pat.calids"] => some (encodeText' (List.intercalate [Char.ofNat 31] calendarIds))
   | _ => none
 
 end Pyoda.Text
